@@ -56,7 +56,8 @@ def run(ctx: Ctx) -> Outcome:
     if ctx.replay:
         if ctx.replay['replay']['scenario'].get('fine'):
             return rtfine.replay_outcome('C12', ctx, also=('C07',))
-        return rtcheck.replay_outcome('C12', ctx, also=('C07',))
+        out = rtcheck.replay_outcome('C12', ctx, also=('C07',))
+        return out
     scs = scenarios(ctx)
     # WorkerFine.tla, cancel configurations (cancel of a future with its result in flight, _handle_cancel racing the main thread,
     # the client cancelling the compilation): TLC runs in the background, replays into the real Worker afterwards
@@ -64,7 +65,8 @@ def run(ctx: Ctx) -> Outcome:
     model_cov, guided, notes = rtmodel.model_check_and_generate('C12', ctx)
     fine_cov, fine_traces, fine_notes = fine.result()
     rtfine.merge(model_cov, fine_cov)
-    out = rtcheck.validate('C12', scs, ctx, extra_traces=list(guided) + fine_traces, also=('C07',), extra_cov=model_cov)
+    out = rtcheck.validate('C12', scs, ctx, extra_traces=list(guided) + fine_traces, also=('C07',), extra_cov=model_cov, keep_items=True)
+    rtfine.annotate_residue(out)       # key field for known findings: was the left-over mailbox created after its owner's cancellation?
     out.notes += notes + fine_notes
     out.assumptions = ['cancelled work is computed by the specification from the observed cancel / completion / disconnect events',
                        'the idle snapshot is taken when no thread of any node can make a step and every client call has returned']
